@@ -519,6 +519,24 @@ func (c *FnCtx) trCall(e *Expr, env *Env) (Term, types.Type) {
 		m, mt := arg(0)
 		k, _ := arg(1)
 		return app("arrshift", m, k), mt
+	case "result_of":
+		// result_of("callee", site, i): the i-th result of the site-th call (SSA order) of callee in this
+		// function. Meaningful only on paths that went through that call: guard it (e.g. err == nil ==> ...).
+		if len(e.Args) < 1 || e.Args[0].Op != "str" {
+			c.specFail("result_of(\"callee\", site, i)")
+		}
+		site, ri := 0, 0
+		if len(e.Args) > 1 && e.Args[1].Op == "int" {
+			fmt.Sscan(e.Args[1].Name, &site)
+		}
+		if len(e.Args) > 2 && e.Args[2].Op == "int" {
+			fmt.Sscan(e.Args[2].Name, &ri)
+		}
+		sites := c.callRes[e.Args[0].Name]
+		if site >= len(sites) || ri >= len(sites[site].res) {
+			c.specFail("result_of: %s has %d call sites here", e.Args[0].Name, len(sites))
+		}
+		return sites[site].res[ri], sites[site].types[ri]
 	case "pkgvar":
 		// pkgvar("io.EOF"): value of a package-level variable of another package
 		if len(e.Args) != 1 || e.Args[0].Op != "str" {
